@@ -60,6 +60,17 @@ impl FixtureDatabase {
         }
     }
 
+    /// Record a local binding, keeping the earliest line on which the name is bound:
+    /// a later re-binding must not hide the earlier one from uses in between.
+    fn bind_local(local_vars: &mut HashMap<String, usize>, name: String, line: usize) {
+        match local_vars.get(&name) {
+            Some(prev) if *prev <= line => {}
+            _ => {
+                local_vars.insert(name, line);
+            }
+        }
+    }
+
     /// Collect all local variable names from a function body.
     /// Records the line number where each variable is defined for scope checking.
     #[allow(clippy::only_used_in_recursion)]
@@ -79,7 +90,7 @@ impl FixtureDatabase {
                         self.collect_names_from_expr(target, &mut temp_names);
                     }
                     for name in temp_names {
-                        local_vars.insert(name, line);
+                        Self::bind_local(local_vars, name, line);
                     }
                 }
                 Stmt::AnnAssign(ann_assign) => {
@@ -88,7 +99,7 @@ impl FixtureDatabase {
                     let mut temp_names = HashSet::new();
                     self.collect_names_from_expr(&ann_assign.target, &mut temp_names);
                     for name in temp_names {
-                        local_vars.insert(name, line);
+                        Self::bind_local(local_vars, name, line);
                     }
                 }
                 Stmt::AugAssign(aug_assign) => {
@@ -97,7 +108,7 @@ impl FixtureDatabase {
                     let mut temp_names = HashSet::new();
                     self.collect_names_from_expr(&aug_assign.target, &mut temp_names);
                     for name in temp_names {
-                        local_vars.insert(name, line);
+                        Self::bind_local(local_vars, name, line);
                     }
                 }
                 Stmt::For(for_stmt) => {
@@ -106,7 +117,7 @@ impl FixtureDatabase {
                     let mut temp_names = HashSet::new();
                     self.collect_names_from_expr(&for_stmt.target, &mut temp_names);
                     for name in temp_names {
-                        local_vars.insert(name, line);
+                        Self::bind_local(local_vars, name, line);
                     }
                     self.collect_local_variables(&for_stmt.body, line_index, local_vars);
                 }
@@ -116,7 +127,7 @@ impl FixtureDatabase {
                     let mut temp_names = HashSet::new();
                     self.collect_names_from_expr(&for_stmt.target, &mut temp_names);
                     for name in temp_names {
-                        local_vars.insert(name, line);
+                        Self::bind_local(local_vars, name, line);
                     }
                     self.collect_local_variables(&for_stmt.body, line_index, local_vars);
                 }
@@ -135,7 +146,7 @@ impl FixtureDatabase {
                             let mut temp_names = HashSet::new();
                             self.collect_names_from_expr(optional_vars, &mut temp_names);
                             for name in temp_names {
-                                local_vars.insert(name, line);
+                                Self::bind_local(local_vars, name, line);
                             }
                         }
                     }
@@ -149,7 +160,7 @@ impl FixtureDatabase {
                             let mut temp_names = HashSet::new();
                             self.collect_names_from_expr(optional_vars, &mut temp_names);
                             for name in temp_names {
-                                local_vars.insert(name, line);
+                                Self::bind_local(local_vars, name, line);
                             }
                         }
                     }
